@@ -119,6 +119,9 @@ impl Property for C17 {
                 } else {
                     case.set("files", 1);
                     case.set("simfiles", i64::from(rng.chance(1, 2)));
+                    // the files as the entries of one directory argument: the order in which
+                    // they are read is the file system's, everything else is still decided
+                    case.set("as_dir", i64::from(rng.chance(1, 4)));
                     place_cuts(rng, &mut case, false);
                 }
             }
@@ -602,7 +605,20 @@ fn check_context(case: &Case, ctx: &mut Ctx) -> Option<Violation> {
             _ => {}
         }
     }
-    let (out, paths) = if use_files && case.param("simfiles") == 1 {
+    let as_dir = use_files && case.param("as_dir") == 1;
+    let (out, paths) = if as_dir {
+        let Some(dir) = ctx.fresh_dir() else {
+            ctx.harness_error = Some("cannot create a directory".into());
+            return None;
+        };
+        let paths: Vec<String> = (0..files.len()).map(|i| format!("{dir}/part{i}.json")).collect();
+        let mut rng = Rng::new(crate::rng::mix(&[files.len() as u64, case.stream().len() as u64, 29]));
+        let plans: Vec<FilePlan> = files.iter().map(|f| gen_file_plan(&mut rng, f.len())).collect();
+        ctx.stats.probe("context rows from a directory argument");
+        let out = ctx.exec(sim_dir_spec(case, &dir, &paths, &files, &plans));
+        let _ = std::fs::remove_dir_all(&dir);
+        (out, paths)
+    } else if use_files && case.param("simfiles") == 1 {
         let mut rng = Rng::new(crate::rng::mix(&[files.len() as u64, case.stream().len() as u64, 23]));
         let plans: Vec<FilePlan> = files.iter().map(|f| gen_file_plan(&mut rng, f.len())).collect();
         let paths = ctx.fresh_paths(files.len());
@@ -636,6 +652,38 @@ fn check_context(case: &Case, ctx: &mut Ctx) -> Option<Violation> {
         ctx.stats.invalid = true;
         ctx.stats.probe("skipped: glued junk changed which values are processed");
         return None;
+    }
+    if as_dir {
+        // the listing order is read off the rows: every file's rows must be contiguous
+        let mut order: Vec<usize> = Vec::new();
+        for row in &rows {
+            let name = serde_json::from_str::<serde_json::Value>(row)
+                .ok()
+                .and_then(|v| v.get("fn").and_then(serde_json::Value::as_str).map(str::to_string));
+            let Some(fi) = name.as_ref().and_then(|n| paths.iter().position(|p| p == n)) else {
+                return viol("C17.file-name", format!("a row of a directory run names no file of that directory: {row}"));
+            };
+            if order.last() != Some(&fi) {
+                if order.contains(&fi) {
+                    return viol("C17.file-name", format!("rows of file {fi} of the directory are not contiguous: {row}"));
+                }
+                order.push(fi);
+            }
+        }
+        let mut re: Vec<Known> = Vec::new();
+        for fi in &order {
+            let mut i = 0;
+            while i < known.len() {
+                if known[i].file == *fi {
+                    re.push(known.remove(i));
+                } else {
+                    i += 1;
+                }
+            }
+        }
+        // values of files that never showed up stay behind and fail the count below
+        re.append(&mut known);
+        known = re;
     }
     if rows.len() != known.len() {
         return viol(
